@@ -45,7 +45,7 @@ C20_pos(p) ==
 C20_err_pos(p) ==
   LET r == p.a IN
   {i \in 1..Len(p.b.errs) : LET e == p.b.errs[i] IN
-     ~(ValidPos(r, e.b, e.c) /\ e.l = LineOf(r, e.c) /\ e.col = ColOf(r, e.c)
+     ~(PosOK(r, e.c) /\ (p.native => ValidPos(r, e.b, e.c)) /\ e.l = LineOf(r, e.c) /\ e.col = ColOf(r, e.c)
        /\ (e.lt = 0 - 1 \/ (e.lt >= 0 /\ e.lt < NTb(p))))}
 
 \* string payload ranges slice the returned literal buffer (on character boundaries) ...
